@@ -126,8 +126,15 @@ def check_schedule(case, prop, nvals, after_step=None, unsafe_is_violation=False
                     bad = None
             if bad:
                 kind, det = bad
+                sig = {"op": step[0], "kind": kind, "poison": str("derived POISON" in det), "stmt": _stmt_class(det), "args": json.dumps({a: b for a, b in desc.items() if a not in ("op", "at", "loop", "err")}, sort_keys=True, default=str)}
+                if kind == "unsafe:unbound-variable":
+                    # does one statement OBJECT occur twice in the input of this step?  (copies made by
+                    # specialize / cut_loop share binder-free statements; see the known finding on
+                    # expression strings resolved in the scope of the first occurrence)
+                    ids = [id(x.node) for x in sched.collect(p.INTERNAL_proc())[0]]
+                    sig["shared_stmt"] = str(len(ids) != len(set(ids)))
                 raise Violation(
-                    {"op": step[0], "kind": kind, "poison": str("derived POISON" in det), "stmt": _stmt_class(det), "args": json.dumps({a: b for a, b in desc.items() if a not in ("op", "at", "loop", "err")}, sort_keys=True, default=str)},
+                    sig,
                     f"step {k}: {json.dumps(desc, default=str)}\ninput {json.dumps(fv)}\n{det}\n--- original:\n{p0}\n--- before this step:\n{sp}\n--- after this step:\n{sq}\naccepted so far: {json.dumps(accepted, default=str)}",
                 )
         if after_step is not None:
